@@ -230,10 +230,35 @@ def _is_state_atom(key, term):
     return ("clock" in txt or "data" in txt or "client_id" in txt or "is_none" in txt or " is Some" in txt or ".json" in txt) and "Iterator" not in txt.split("(")[0]
 
 
+def rule_e(R, ctx):
+    Y = ctx.yrs
+    R.rule("C18.e", "R-GUARD first contact is recorded: in Awareness::apply_update_internal the Vacant arm inserts "
+                    "ClientState::new(clock, ..) for every entry of the update, whatever it carries — the insertion is decided by the "
+                    "map lookup alone, not by whether the entry has data: a `null` removal that is the first thing a peer hears about "
+                    "a client must leave its clock behind, or an older state that arrives later is accepted (order-sensitive result, "
+                    "clock going backwards)")
+    fn = Y.fn("yrs::sync::awareness::Awareness::apply_update_internal")
+    v = FnView(fn)
+    ins = [cs for cs in fn.calls() if re.search(r"VacantEntry(<.*>)?::insert$", F.strip_generics(cs.name)) or
+           (F.strip_generics(cs.name).endswith("VacantEntry::insert"))]
+    R.floor("C18.e", "VacantEntry::insert in apply_update_internal", len(ins), 1)
+    for cs, site in ordinal_sites(ins):
+        def lookup(l):
+            t = simp(l.term)
+            return t[0] == "call" and (re.search(r"::entry$", t[1]) or re.search(r"Iterator(<.*>)?>?::next$", t[1]))
+        extra = [l.desc for l in v.guards(cs.bb) if not lookup(l)]
+        val = v.arg(cs, 1, 10)
+        carries_clock = term_has_call(val, "re:ClientState::new$")
+        R.ob("C18.e", fn, site, not extra and carries_clock,
+             "a never-seen client is recorded with its clock unconditionally" if not extra and carries_clock else
+             "the first entry for a client is recorded only under %s (ClientState::new: %s)" % (extra[:2], carries_clock), cs.loc())
+
+
 def check(ctx, R):
     from . import wire_rules
     R.run("C18.a", rule_a, ctx)
     R.run("C18.b", rule_b, ctx)
     R.run("C18.c", wire_rules.c18_c, ctx)
     R.run("C18.d", rule_d, ctx)
+    R.run("C18.e", rule_e, ctx)
     return {}
